@@ -211,3 +211,279 @@ def inject_case(args):
         return res
     res['skip'] = 'no handshake'
     return res
+
+
+# ------------------------------------------------------------------------------------------
+def ku_history_case(args):
+    """args = (cipher, seed, nops): a random history of KeyUpdates (requested / not requested, sent by either
+    role, sequential or crossing) with data in both directions after each.  Checks, after every step:
+    data is delivered exactly; at both ends the stored traffic secrets are the secrets of the installed
+    keys (IV of the write/read state = HKDF-Expand-Label(stored secret, "iv")); and returns the generation
+    numbers (position of each stored secret in the independent HKDF chain) for the model comparison."""
+    import random
+    cipher, seed, nops = args
+    import loop
+    from tlslite.constants import CipherSuite
+    rng = random.Random(seed)
+    res = dict(args=args, viol=[], ops=[], gens=None)
+    p = None
+    for p, cs, ss in _pair((3, 4), cipher, 'aead', False, seed):
+        chain, key = loop.creds('rsa')
+        co, so = p.handshake(client_kw=dict(settings=cs), server_kw=dict(certChain=chain, privateKey=key, settings=ss))
+        if loop.classify(co) != ('ok',) or loop.classify(so) != ('ok',):
+            res['skip'] = True
+            return res
+    ends = {'c': p.client, 's': p.server}
+    c = p.client
+    hname = 'sha384' if c.session.cipherSuite in CipherSuite.sha384PrfSuites else 'sha256'
+    hlen = 48 if hname == 'sha384' else 32
+    chain_ = {'c': [bytes(c.session.cl_app_secret)], 's': [bytes(c.session.sr_app_secret)]}
+    for d in 'cs':
+        for _ in range(2 * nops + 4):
+            chain_[d].append(hkdf_expand_label(chain_[d][-1], b'traffic upd', b'', hlen, hname))
+    counter = [0]
+
+    def exchange(frm, to, step):
+        counter[0] += 1
+        m = b'marker-%03d-from-%s' % (counter[0], frm.encode())
+        o = loop.drive([ends[frm].writeAsync(m)])[0]
+        if o[0] != 'ok':
+            res['viol'].append(('keyupdate-data-lost', 'step %d %r: write by %s failed: %r' % (step, res['ops'][-1], frm, loop.classify(o))))
+            return False
+        g, out = _read_all(loop, ends[to], len(m))
+        if g != m:
+            res['viol'].append(('keyupdate-data-lost', 'step %d %r: %s wrote %d bytes after the KeyUpdate(s), %s read %r (%s)'
+                                % (step, res['ops'][-1], frm, len(m), to, g, type(out).__name__ if isinstance(out, Exception) else out)))
+            return False
+        return True
+
+    def check_stored(step):
+        for side in 'cs':
+            e = ends[side]
+            own = bytes(e.session.cl_app_secret if side == 'c' else e.session.sr_app_secret)
+            peer = bytes(e.session.sr_app_secret if side == 'c' else e.session.cl_app_secret)
+            if hkdf_expand_label(own, b'iv', b'', 12, hname) != bytes(e._recordLayer._writeState.fixedNonce):
+                res['viol'].append(('keyupdate-stored-secret', 'step %d %r: %s stores an own-direction traffic secret that is not '
+                                    'the secret of its installed write key' % (step, res['ops'][-1], side)))
+            if hkdf_expand_label(peer, b'iv', b'', 12, hname) != bytes(e._recordLayer._readState.fixedNonce):
+                res['viol'].append(('keyupdate-stored-secret', 'step %d %r: %s stores a peer-direction traffic secret that is not '
+                                    'the secret of its installed read key' % (step, res['ops'][-1], side)))
+
+    for step in range(nops):
+        kind = rng.choice(['seq', 'seq', 'cross'])
+        if kind == 'seq':
+            x = rng.choice('cs')
+            y = 's' if x == 'c' else 'c'
+            req = rng.random() < 0.6
+            res['ops'].append(('seq', x, req))
+            loop.drive([ends[x].send_keyupdate_request(1 if req else 0)])
+            ok = exchange(x, y, step) and exchange(y, x, step) and exchange(x, y, step)
+        else:
+            rc, rs = rng.random() < 0.5, rng.random() < 0.5
+            res['ops'].append(('cross', rc, rs))
+            loop.drive([ends['c'].send_keyupdate_request(1 if rc else 0)])
+            loop.drive([ends['s'].send_keyupdate_request(1 if rs else 0)])
+            ok = exchange('c', 's', step) and exchange('s', 'c', step) and exchange('c', 's', step) and exchange('s', 'c', step)
+        if not ok:
+            return res
+        if not any(v[0] == 'keyupdate-stored-secret' for v in res['viol']):
+            check_stored(step)        # (keep going: the stale secret shows as lost data at the next KeyUpdate)
+
+    def gen(secret, d):
+        s = bytes(secret)
+        return chain_[d].index(s) if s in chain_[d] else -1
+    cl, sv = p.client, p.server
+    res['gens'] = [gen(cl.session.cl_app_secret, 'c'), gen(cl.session.sr_app_secret, 's'),
+                   gen(sv.session.sr_app_secret, 's'), gen(sv.session.cl_app_secret, 'c')]
+    return res
+
+
+def ku_model_ops(ops):
+    """The history as operations of the Coq model (A = client): list of Gallina ku_op terms."""
+    out = []
+    for o in ops:
+        if o[0] == 'seq':
+            _, x, req = o
+            a = (x == 'c')
+            out.append('KUSend %s %s' % ('true' if a else 'false', 'true' if req else 'false'))
+            out.append('KURecv %s' % ('true' if a else 'false'))          # processed by the peer (B when A sent)
+            if req:
+                out.append('KURecv %s' % ('false' if a else 'true'))      # the answer, processed by the sender
+        else:
+            _, rc, rs = o
+            out.append('KUSend true %s' % ('true' if rc else 'false'))
+            out.append('KUSend false %s' % ('true' if rs else 'false'))
+            out.append('KURecv true')
+            out.append('KURecv false')
+            if rc:
+                out.append('KURecv false')
+            if rs:
+                out.append('KURecv true')
+    return out
+
+
+# ------------------------------------------------------------------------------------------
+FLAVOURS = ('tls13', 'tls13-hrr', 'tls13-psk', 'tls13-ticket', 'tls12', 'tls12-etm-cbc', 'tls12-resume-id',
+            'tls12-ticket', 'tls12-early', 'tls10')
+HRR_RANDOM = bytes.fromhex('cf21ad74e59a6111be1d8c021e65b891c2a211167abb8c5e079e09e2c8a8339c')
+PLAIN_RECORDS = {
+    'ccs': bytes([20, 3, 3, 0, 1, 1]),
+    'alert-warning': bytes([21, 3, 3, 0, 2, 1, 0]),
+    'alert-fatal': bytes([21, 3, 3, 0, 2, 2, 40]),
+    'appdata': bytes([23, 3, 3, 0, 5]) + b'hello',
+    'handshake': bytes([22, 3, 3, 0, 4, 0, 0, 0, 0]),
+    'heartbeat': bytes([24, 3, 3, 0, 3, 1, 0, 0]),
+}
+
+
+def _flavour_pair(flavour, seed):
+    """Complete a handshake of the given flavour; returns the Pair or None (flavour not available)."""
+    import loop
+    from tlslite.api import SessionCache
+    from tlslite.constants import ExtensionType
+    from tlslite.extensions import TLSExtension
+    from tlslite.messages import ClientHello
+    rnd = loop.DetRandom(seed).install()
+    try:
+        chain, key = loop.creds('rsa')
+        t13 = flavour.startswith('tls13')
+        ver = (3, 4) if t13 else ((3, 1) if flavour == 'tls10' else (3, 3))
+        cipher, mac = ('aes128gcm', 'aead') if ver >= (3, 3) and flavour != 'tls12-etm-cbc' else ('aes128', 'sha')
+        cache = SessionCache() if flavour == 'tls12-resume-id' else None
+        session = None
+        rounds = 2 if flavour in ('tls13-ticket', 'tls12-resume-id', 'tls12-ticket') else 1
+        p = None
+        for rnd_no in range(rounds):
+            p = loop.Pair()
+            kw = dict(minv=ver, maxv=ver, cipherNames=[cipher], macNames=[mac])
+            cs, ss = loop.settings(**kw), loop.settings(**kw)
+            if ver < (3, 4):
+                cs.keyExchangeNames = ['rsa']
+                ss.keyExchangeNames = ['rsa']
+            if flavour in ('tls13-ticket', 'tls12-ticket'):
+                ss.ticketKeys = [bytearray(range(32))]
+                ss.ticket_count = 2
+            if flavour == 'tls13-hrr':
+                ss.eccCurves = ['secp384r1']
+                ss.keyShares = ['secp384r1']
+                cs.eccCurves = ['x25519', 'secp256r1', 'secp384r1']
+                cs.keyShares = ['x25519']
+            if flavour == 'tls13-psk':
+                cs.pskConfigs = [(b'psk-identity', bytearray(b'\x11' * 32))]
+                ss.pskConfigs = [(b'psk-identity', bytearray(b'\x11' * 32))]
+            if flavour == 'tls12-early':
+                cs.maxVersion = (3, 4)
+                cs.cipherNames = ['aes128gcm']
+                cs.pskConfigs = [(b'cluster-ticket', bytearray(b'\x11' * 32))]
+                cl = p.client
+                orig = cl._sendMsg
+
+                def send_with_early_data(msg, *a, **k):
+                    # the PEER (client) additionally advertises early_data; pre_shared_key stays last
+                    if isinstance(msg, ClientHello) and msg.extensions and \
+                            msg.getExtension(ExtensionType.early_data) is None and \
+                            msg.getExtension(ExtensionType.pre_shared_key) is not None:
+                        msg.extensions.insert(len(msg.extensions) - 1,
+                                              TLSExtension(extType=ExtensionType.early_data).create(bytearray(0)))
+                    return orig(msg, *a, **k)
+                cl._sendMsg = send_with_early_data
+            ckw = dict(settings=cs)
+            if session is not None:
+                ckw['session'] = session
+            skw = dict(certChain=chain, privateKey=key, settings=ss)
+            if cache is not None:
+                skw['sessionCache'] = cache
+            co, so = p.handshake(client_kw=ckw, server_kw=skw)
+            if loop.classify(co) != ('ok',) or loop.classify(so) != ('ok',):
+                return None
+            if rounds == 2 and rnd_no == 0:
+                p.transfer(p.server, p.client, b'x')
+                session = p.client.session
+                p.close_both()
+            elif rounds == 2 and not (p.client.resumed and p.server.resumed):
+                return None
+        if flavour == 'tls13-hrr' and HRR_RANDOM not in b''.join(p.ssock.sent_log):
+            return None
+        if flavour == 'tls12-early' and (p.server.version != (3, 3) or not p.server._recordLayer.max_early_data):
+            return None
+        return p
+    finally:
+        rnd.uninstall()
+
+
+def flavour_case(args):
+    """args = (flavour, victim 'c'|'s', action, seed).  After the handshake of the given flavour and one honest
+    exchange in both directions, the on-path attacker acts on the victim's incoming stream in front of the
+    peer's next record ('second'); the victim then reads."""
+    flavour, victim, action, seed = args
+    import loop
+    from tlslite import errors as E
+    res = dict(args=args, viol=[])
+    p = _flavour_pair(flavour, seed)
+    if p is None:
+        res['skip'] = True
+        return res
+    ends = {'c': p.client, 's': p.server}
+    socks = {'c': p.csock, 's': p.ssock}
+    peer = 's' if victim == 'c' else 'c'
+    v, w = ends[victim], ends[peer]
+    # honest traffic both ways first (also drains NewSessionTicket messages)
+    for a, b, m in ((peer, victim, b'first'), (victim, peer, b'reply')):
+        loop.drive([ends[a].writeAsync(m)])
+        g, o = _read_all(loop, ends[b], len(m))
+        if g != m:
+            res['viol'].append(('honest-stream-broken', '%s: %s could not read %r: %r %r' % (flavour, b, m, g, o)))
+            return res
+    held = bytearray()
+    socks[peer].tap = lambda name, chunk: (held.extend(chunk), b'')[1]
+    loop.drive([w.writeAsync(b'second')])
+    loop.drive([w.writeAsync(b'third!')])
+    socks[peer].tap = None
+    recs, _ = split_records(bytes(held))
+    kind = action[0]
+    if kind == 'inject':
+        feed = [PLAIN_RECORDS[action[1]]] + recs
+    elif kind == 'flip':
+        r = bytearray(recs[0])
+        r[-1] ^= 1
+        feed = [bytes(r)] + recs[1:]
+    elif kind == 'flip-then-honest':          # a forged copy first, then the genuine records
+        r = bytearray(recs[0])
+        r[-1] ^= 1
+        feed = [bytes(r)] + recs
+    elif kind == 'swap':
+        feed = [recs[-1]] + recs[:-1]
+    elif kind == 'honest':
+        feed = recs
+    else:
+        raise ValueError(kind)
+    socks[victim].inbuf += b''.join(feed)
+    n0 = len(socks[victim].sent_log)
+    got, outcome = _read_all(loop, v, 12)
+    res.update(got=got.hex(), outcome=type(outcome).__name__ if isinstance(outcome, Exception) else outcome,
+               desc=int(outcome.description) if isinstance(outcome, (E.TLSLocalAlert, E.TLSRemoteAlert)) else None,
+               closed=v.closed, resumable=bool(v.session and v.session.resumable))
+    if kind == 'honest':
+        if got != b'secondthird!':
+            res['viol'].append(('honest-stream-broken', '%s: unmodified stream gave %r %s' % (flavour, got, res['outcome'])))
+        return res
+    what = '%s, %s reading, attacker %s' % (flavour, victim, '/'.join(action))
+    if got:
+        res['viol'].append(('accepted-not-next' if got != b'secondthird!'[:len(got)] else 'forged-record-ignored',
+                            '%s: read() went on and delivered %r after the forged record (outcome %s)' % (what, got, res['outcome'])))
+    elif outcome == 'eof':
+        res['viol'].append(('accepted-as-close', '%s: read() reported an orderly close' % what))
+    elif isinstance(outcome, E.TLSRemoteAlert):
+        res['viol'].append(('accepted-as-peer-alert', '%s: taken for an alert of the peer (%s)' % (what, res['desc'])))
+    elif isinstance(outcome, loop.Deadlock) or outcome is None:
+        res['viol'].append(('forged-record-ignored', '%s: the forged record was swallowed and read() waits for more' % what))
+    elif not isinstance(outcome, E.TLSLocalAlert):
+        res['viol'].append(('rejected-without-alert:%s' % res['outcome'], '%s: %s' % (what, res['outcome'])))
+    else:
+        if not v.closed:
+            res['viol'].append(('not-closed', what))
+        if res['resumable']:
+            res['viol'].append(('still-resumable', what))
+        if len(socks[victim].sent_log) == n0:
+            res['viol'].append(('no-alert-on-wire', what))
+    return res
